@@ -338,35 +338,69 @@ def _run(pid, P, tier, seed, scratch, t0):
     import props
     contracts = sorted(glob.glob(os.path.join(HERE, 'contracts', '*.vc')))
     vdir = os.path.join(scratch, 'vcrate')
-    try:
-        meta = ann.annotate(REPO, contracts, vdir)
-    except (ann.Lost, ann.rustlex.LexError) as e:
-        print('INCONCLUSIVE property=%s reason=lost-anchor detail=%s' % (pid, e))
-        return 2
-    extra = []
-    if tier == 'thorough':
-        extra = []
-    cfgs = [True, False]
-    # vacuity pass on a second annotated copy (assert(false) at the start of every function under contract)
     vacdir = os.path.join(scratch, 'vcrate_vacuity')
-    vmeta = ann.annotate(REPO, contracts, vacdir, vacuity=True)
-    with concurrent.futures.ThreadPoolExecutor(max_workers=4) as ex:
-        futs = [ex.submit(run_verus, vdir, c, extra) for c in cfgs]
-        vac_fut = ex.submit(run_verus, vacdir, True, [])
-        kani_fut = None
-        if P.get('kani'):
-            import kani_run
-            kani_fut = ex.submit(kani_run.run_harnesses, REPO, os.path.join(scratch, 'kcrate'), P['kani'], tier)
-        runs = [f.result() for f in futs]
-        vac = vac_fut.result()
-        kani = kani_fut.result() if kani_fut else None
+    cfgs = [True, False]
+    demote = set()
+    kani = None
+    kani_started = False
+    extra = []
+    for attempt in range(5):
+        try:
+            meta = ann.annotate(REPO, contracts, vdir, demote=demote)
+            vmeta = ann.annotate(REPO, contracts, vacdir, vacuity=True, demote=demote)
+        except (ann.Lost, ann.rustlex.LexError) as e:
+            print('INCONCLUSIVE property=%s reason=lost-anchor detail=%s' % (pid, e))
+            return 2
+        with concurrent.futures.ThreadPoolExecutor(max_workers=4) as ex:
+            futs = [ex.submit(run_verus, vdir, c, extra) for c in cfgs]
+            vac_fut = ex.submit(run_verus, vacdir, True, [])
+            kani_fut = None
+            if P.get('kani') and not kani_started:
+                import kani_run
+                kani_started = True
+                kani_fut = ex.submit(kani_run.run_harnesses, REPO, os.path.join(scratch, 'kcrate'), P['kani'], tier)
+            runs = [f.result() for f in futs]
+            vac = vac_fut.result()
+            if kani_fut:
+                kani = kani_fut.result()
+        # a construct the verifier cannot read inside one function must not take the whole crate down: find the
+        # function, keep only its contract (as an assumption, reported) and verify the rest
+        newly = set()
+        for r in runs:
+            for d in r['diags']:
+                if d.get('level') != 'error' or d.get('message', '').startswith('aborting'):
+                    continue
+                msg = d.get('message', '')
+                fatal = bool(d.get('code')) or any(p in msg for p in INCONCLUSIVE_PATTERNS) and 'rlimit' not in msg and 'Resource limit' not in msg
+                if not fatal:
+                    continue
+                for sp in d.get('spans', []):
+                    cur = sp
+                    while cur is not None:
+                        f = fn_of(meta, cur['file_name'], cur['line_start'])
+                        o = origin_of(meta, cur['file_name'], cur['line_start'])
+                        if f and f['qual'] not in demote and not f['qual'].startswith('test_'):
+                            newly.add(f['qual'])
+                            break
+                        e2 = cur.get('expansion')
+                        cur = e2.get('span') if e2 else None
+        if not newly:
+            break
+        demote |= newly
     if tier == 'thorough':
-        # proof stability: two more Z3 seeds and a 4x resource limit must give the same verdicts
+        # proof stability: two more Z3 seeds must give the same verdicts
         for sd in (1, 2):
             runs.append(run_verus(vdir, True, ['--smt-option', 'smt.random_seed=%d' % (seed + sd)]))
             runs[-1]['cfg'] += ',seed=%d' % (seed + sd)
 
     failures, inconclusive = [], []
+    undecided_fns = {}
+    for q in sorted(demote):
+        undecided_fns[q] = 'contains a construct the verifier cannot read; only its contract was kept, as an assumption'
+    for q in meta['notes'].get('lost_fns', []):
+        undecided_fns[q] = 'function not found (renamed beyond recognition or removed)'
+    lost_local = meta['notes'].get('lost', {})
+    calls_unc = meta['notes'].get('calls_uncontracted', {})
     for msg in meta['notes'].get('lost_optional', []):
         print('NOTE property=%s optional proof-hint anchor not found (the code changed shape); verifying without it: %s' % (pid, msg))
     for r in runs:
@@ -374,6 +408,19 @@ def _run(pid, P, tier, seed, scratch, t0):
         failures += f
         inconclusive += i
     known = load_known()
+    # a failing proof inside a function whose hints were lost, or which calls a new function without a contract, is
+    # undecided (exit 2), not a violation
+    kept = []
+    for f in failures:
+        why = None
+        if f['fn'] in lost_local:
+            why = 'a proof hint / normalisation of this function was lost: ' + lost_local[f['fn']][0][:160]
+        elif f['fn'] in calls_unc:
+            why = 'calls %s, which is new and has no contract' % ', '.join(calls_unc[f['fn']])
+        if why:
+            f['undecided'] = why
+        kept.append(f)
+    failures = kept
 
     # ---- obligations of this property
     clauses = [c for c in meta['clauses'].values() if pid in c['tags']]
@@ -421,7 +468,30 @@ def _run(pid, P, tier, seed, scratch, t0):
             # discharged under one debug_assertions setting and not under the other: the two builds differ
             tags = tags + ['C17']
         if pid in tags:
-            rel_fail.append(f)
+            if f.get('undecided'):
+                # undecided by the verifier — but if a concrete input that exercises this clause fails on the real
+                # code, it is a violation after all (the input is the evidence)
+                if f.get('witness') is None and not f.get('searched'):
+                    f['searched'] = True
+                    try:
+                        import witness
+                        witness.find(pid, f, REPO, scratch)
+                    except Exception as ex_:
+                        f['witness_error'] = str(ex_)
+                if f.get('replayed'):
+                    rel_fail.append(f)
+                else:
+                    inconclusive.append(dict(message='UNDECIDED %s: %s' % (f['id'], f['undecided']), rendered='', cfg=f['cfg']))
+            else:
+                rel_fail.append(f)
+    # clauses of this property that sit in a function that could not be verified this run
+    for c in clauses:
+        q = ann.scope_of(c['where'])
+        if q in undecided_fns:
+            inconclusive.append(dict(message='UNDECIDED clause %s: `%s` %s' % (c['id'], q, undecided_fns[q]), rendered='', cfg=''))
+    if pid in SAFETY_PROPS:
+        for q in undecided_fns:
+            inconclusive.append(dict(message='UNDECIDED safety of `%s`: %s' % (q, undecided_fns[q]), rendered='', cfg=''))
     if kani:
         for h in kani_obl:
             if h['status'] == 'FAILED':
